@@ -85,7 +85,19 @@ TPostings ==
      \A k \in conf : (k[1] = "series" /\ k[2] = Line.scope) => dict[k] \in ids
   /\ UNCHANGED vars
 
-TraceNext == TReset \/ TCall \/ TRetID \/ TRetNone \/ TReopen \/ TNote \/ TCompact \/ TPostings
+\* the reverse lookup of one tag key (CollectTagValues: ids -> names, the group-by path), at a quiescent point: every
+\* returned pair is a pair of the dictionary, and every confirmed name whose id was asked for is returned
+TCollect ==
+  /\ Ev("Collect")
+  /\ LET asked == {Line.asked[i] : i \in 1..Len(Line.asked)}
+         P == Line.pairs
+     IN /\ \A ids \in DOMAIN P :
+             LET k == <<"tagvalue", Line.scope, P[ids]>> IN k \in DOMAIN dict /\ ToString(dict[k]) = ids /\ dict[k] \in asked
+        /\ \A k \in conf : (k[1] = "tagvalue" /\ k[2] = Line.scope /\ dict[k] \in asked)
+                              => (ToString(dict[k]) \in DOMAIN P /\ P[ToString(dict[k])] = k[3])
+  /\ UNCHANGED vars
+
+TraceNext == TReset \/ TCollect \/ TCall \/ TRetID \/ TRetNone \/ TReopen \/ TNote \/ TCompact \/ TPostings
 TraceSpec == TraceInit /\ [][TraceNext]_tvars
 
 \* C09 on the abstract dictionary: injective per id space over the confirmed entries
